@@ -63,13 +63,21 @@ def _worker(items, base):
                 kind = "height" if ("height" in msg or "floor" in msg or "underflow" in msg or "retsub" in msg) else \
                     ("type" if ("required" in msg or "compares" in msg or "bytes on top" in msg) else "other")
                 feats = {"kind": kind, "driver": driver, "static": True}
-                if c03._optimises(cfg):
+                if driver == "operand-transfer":
+                    feats["operands_pending"] = bool(prog["meta"]["pending"])
+                elif c03._optimises(cfg):
                     feats.update(c03.optimizer_diff_features(_unopt(prog, cfg, driver), text))
                 out["violations"].append({
                     "driver": driver, "size": size, "title": "%s: %s at line %d of %s (v%d %s)" % (driver, msg, ln, rid, cfg.version, cfg.mode),
                     "recipe": prog, "cfg": cfg.to_json(), "issue": [rid, ln, msg], "teal": text,
                     "features": feats,
                 })
+            if driver == "operand-transfer" and not an.issues and an.main_return_heights - {1}:
+                out["violations"].append({
+                    "driver": driver, "size": size, "title": "%s: the main routine returns with %s values on the stack (v%d %s)" % (
+                        driver, sorted(an.main_return_heights), cfg.version, cfg.mode),
+                    "recipe": prog, "cfg": cfg.to_json(), "issue": ["main", 0, "return height"], "teal": text,
+                    "features": {"kind": "height", "driver": driver, "static": True, "operands_pending": bool(prog["meta"]["pending"])}})
             # dynamic side: no type / underflow fault on any input (recipes here contain no anytype expression)
             if inputs:
                 skey = p.stream()
@@ -79,7 +87,9 @@ def _worker(items, base):
                     oc["run:" + res.verdict] = oc.get("run:" + res.verdict, 0) + 1
                     if res.verdict == "FAIL" and res.cat in ("type", "underflow"):
                         feats = {"kind": "dynamic_" + res.cat, "driver": driver, "static": False}
-                        if c03._optimises(cfg):
+                        if driver == "operand-transfer":
+                            feats["operands_pending"] = bool(prog["meta"]["pending"])
+                        elif c03._optimises(cfg):
                             # structural relation to the unoptimised text (signature of the C03 optimiser finding)
                             feats.update(c03.optimizer_diff_features(_unopt(prog, cfg, driver), text))
                         out["violations"].append({
@@ -205,6 +215,10 @@ def run(tier):
         items.append((size, prog, "return-chain", inputs))
     for size, prog, inputs, lab in gen_ctrl.typed_chains(3 if tier == "quick" else 4):
         items.append((size, prog, "typed-chain", inputs))
+    # control transfers inside an operand (Break / Continue / Return while sibling operands are pending)
+    from ..recipe import gen_xfer
+    for size, prog, inputs, meta in gen_xfer.programs():
+        items.append((size, dict(prog, meta=meta), "operand-transfer", inputs))
     rep.bounds["recipes"] = len(items)
     for sh in common.pmap_shards(_worker, items, order_seed=rep.seed):
         rep.merge(sh)
